@@ -214,6 +214,9 @@ class C06Monitor(Monitor):
                 elif b["active"] and b["hib"]:
                     w.probe("c06-hibernating-skipped")
             # transitions
+            if b["active"] and b["hib"] and not d._active and id(d) not in self.gsc_true:
+                self.violate("hibernating-deme-deactivated/" + cls,
+                             {"deme": d.id, "step": w.step, "lsc_consulted": id(d) in self.lsc_consulted})
             if b["active"] and not d._active:
                 reason = None
                 if id(d) in self.lsc_true:
